@@ -194,6 +194,16 @@ Definition get_sensor (ps : list part) (name : Z) (allow_repeats : bool) : sres 
     let dt := if existsb is_floatnum xs then SensorCache.DFloat else SensorCache.DInt in
     RNum (concat (map (fun nx => num_piece (dummy_code dt) (fst nx) (snd nx)) nxs)).
 
+(* Unsigned integer sensors.  [uns] = the common dtype of the parts that have the sensor is an unsigned integer type.
+   When some part lacks the sensor, ConcatenatedSensorCache.get asks dummy_sensor_getter for the dummy value of that
+   dtype, which evaluates np.dtype(dtype).type(-1): NumPy >= 2 refuses to turn -1 into an unsigned type
+   (OverflowError) -- finding C19-F4; with every part having the sensor nothing is filled and nothing fails.
+   [get_sensor_u] is ConcatenatedSensorCache.get; [get_sensor] is its behaviour on all other types. *)
+Definition lacks_some (ps : list part) (name : Z) : bool :=
+  let xs := map (fun p => find_sens name (p_sens p)) ps in existsb is_absent xs && negb (forallb is_absent xs).
+Definition get_sensor_u (ps : list part) (name : Z) (allow_repeats uns : bool) : sres :=
+  if uns && lacks_some ps name then RFail else get_sensor ps name allow_repeats.
+
 (* cache[name] with the time selection: every part applies its own slice view of the global mask *)
 Fixpoint mask_sel {A} (m : list bool) (l : list A) : list A :=
   match m, l with
@@ -303,7 +313,9 @@ Definition wire_19 (x : sx) : sx :=
   match x with
   | L [parts; names; keep] =>
       let input := map to_part (to_list parts) in
-      let names := map (fun n => match n with L [I k; ar] => (k, to_bool ar) | _ => (0%Z, false) end) (to_list names) in
+      let unss := map (fun n => match n with L [I k; ar; u] => to_bool u | _ => false end) (to_list names) in
+      let names := map (fun n => match n with L [I k; ar] => (k, to_bool ar) | L [I k; ar; u] => (k, to_bool ar)
+                                 | _ => (0%Z, false) end) (to_list names) in
       let keep := to_bools keep in
       let so := spec_order input in
       let skeep := band keep (spec_keep0 so) in
@@ -331,11 +343,11 @@ Definition wire_19 (x : sx) : sx :=
                 L [of_ocd (m_sub m); of_ocd (m_spw m); of_ocd (m_tgt m); of_ocd (m_sub_index m); of_ocd (m_spw_index m);
                    of_ocd (m_tgt_index m); of_ocd (m_state m); of_ocd (m_label m); of_ocd (m_scan m); of_ocd (m_cscan m)];
                 L (map of_part ps);
-                L (map (fun na => of_sres (get_sensor ps (fst na) (snd na))) names);
-                L (map (fun na => match get_sensor ps (fst na) (snd na) with
+                L (map (fun nu => of_sres (get_sensor_u ps (fst (fst nu)) (snd (fst nu)) (snd nu))) (combine names unss));
+                L (map (fun nu => match get_sensor_u ps (fst (fst nu)) (snd (fst nu)) (snd nu) with
                                   | RNum l => of_Zs (selected_pieces ps keep (cut (map nT ps) l))
                                   | RCat c => of_Zs (selected_pieces ps keep (cut (map nT ps) (zexpand c)))
-                                  | _ => L [] end) names)];
+                                  | _ => L [] end) (combine names unss))];
              spec]
       end
   | _ => sx_err
